@@ -220,6 +220,10 @@ func sendLattice(c *vf.Ctx) {
 	for _, n := range []int{0, 1, 2, 0xFFFE, 0xFFFF, 0x10000, 0x10001, 0x1FFFE, 0x1FFFF, 0x20000, 0x20001, 0x2FFFF} {
 		add(n)
 	}
+	// far beyond the limit: where the length wraps in 24 bits (a one-byte flags field cannot hold more)
+	for _, n := range []int{0x30000, 0xFFFFFF, 0x1000000, 0x1000001, 0x100FFFF, 0x1010000, 0x101FFFF, 0x1020000} {
+		add(n)
+	}
 	if c.Thorough() {
 		for n := 0; n <= 300; n++ {
 			add(n)
@@ -403,6 +407,16 @@ func runScript(c *vf.Ctx, sc *script, obs func(string)) {
 		complete++
 	}
 	pre := "C11/receive/" + s.class + "/"
+	// every message handed out stays the caller's: re-checked after ALL later Receive calls of the stream
+	var held [][]byte
+	defer func() {
+		for i, h := range held {
+			want := s.payload(i)
+			c.Check(pre+"earlier-message-unchanged-by-later-Receive", bytes.Equal(h, want), func() string {
+				return fmt.Sprintf("the %d-byte message returned by Receive call %d reads %s after the later Receive calls (it was %s): the returned slice shares memory with later frames; %s", len(want), i+1, vf.HexS(h), vf.HexS(want), sc)
+			})
+		}
+	}()
 	for i := 0; i <= complete; i++ {
 		var got []byte
 		var err error
@@ -421,6 +435,7 @@ func runScript(c *vf.Ctx, sc *script, obs func(string)) {
 			if !ok {
 				return
 			}
+			held = append(held, got)
 			continue
 		}
 		// nothing complete is left: partial frame or end of stream
